@@ -50,3 +50,73 @@ func VC13MapOrder() {
 	}
 	vReach("end")
 }
+
+// C13 (instance isolation): the bytes a writer produces do not depend on another Writer instance being active at
+// the same time. The engine has no scheduler; what it decides is every interleaving at the granularity of sink
+// writes and API calls: (mode 0) while writer A is inside its k-th sink Write (k symbolic: every write of the
+// workload), a second writer B - other options, other workload - runs from NewWriter to Close; (mode 1) the API
+// calls of A and B alternate. A's and B's outputs must be byte-identical to what each produces alone.
+// params: tpl (A's workload), cfg, cs, mode
+func VC13Isolation() {
+	tpl, cfg, cs, mode := vParam("tpl"), vParam("cfg"), vParam("cs"), vParam("mode")
+	wlA := vMakeWorkload(tpl, 1, 2, 0)
+	wlB := vMakeWorkload(6, 3, 5, 1)
+	// B's values are its own symbols
+	for i := range wlB.recs {
+		if wlB.recs[i].kind == vKMessage {
+			wlB.recs[i].msg.LogTime = vSymU64(vN("bt", i))
+		}
+	}
+	optsA := func() *WriterOptions { return vOptions(cfg, 0, int64(cs)) }
+	optsB := func() *WriterOptions { return vOptions(3, 0, 40) }
+	_, refA := vWriteAll(wlA, optsA())
+	_, refB := vWriteAll(wlB, optsB())
+	sinkA, sinkB := &vSink{failAt: -1}, &vSink{failAt: -1}
+	runB := func() {
+		w, err := NewWriter(sinkB, optsB())
+		vAssert(err == nil, "NewWriter (second instance)")
+		vAssert(w.WriteHeader(&wlB.header) == nil, "WriteHeader (second instance)")
+		for i := range wlB.recs {
+			vAssert(vWriteRec(w, &wlB.recs[i]) == nil, "write call (second instance)")
+		}
+		vAssert(w.Close() == nil, "Close (second instance)")
+	}
+	if mode == 0 {
+		k := vSymInt("k")
+		vAssume(k >= 0 && k < 64)
+		sinkA.hookAt, sinkA.hook = k, runB
+		wA, err := NewWriter(sinkA, optsA())
+		vAssert(err == nil, "NewWriter")
+		vAssert(wA.WriteHeader(&wlA.header) == nil, "WriteHeader")
+		for i := range wlA.recs {
+			vAssert(vWriteRec(wA, &wlA.recs[i]) == nil, "write call")
+		}
+		vAssert(wA.Close() == nil, "Close")
+		if sinkA.hook != nil {
+			vReach("k beyond the last write")
+			runB()
+		} else {
+			vReach("second instance ran inside a write")
+		}
+	} else {
+		wA, err := NewWriter(sinkA, optsA())
+		vAssert(err == nil, "NewWriter")
+		wB, err := NewWriter(sinkB, optsB())
+		vAssert(err == nil, "NewWriter (second instance)")
+		vAssert(wA.WriteHeader(&wlA.header) == nil, "WriteHeader")
+		vAssert(wB.WriteHeader(&wlB.header) == nil, "WriteHeader (second instance)")
+		for i := 0; i < len(wlA.recs) || i < len(wlB.recs); i++ {
+			if i < len(wlA.recs) {
+				vAssert(vWriteRec(wA, &wlA.recs[i]) == nil, "write call")
+			}
+			if i < len(wlB.recs) {
+				vAssert(vWriteRec(wB, &wlB.recs[i]) == nil, "write call (second instance)")
+			}
+		}
+		vAssert(wB.Close() == nil, "Close (second instance)")
+		vAssert(wA.Close() == nil, "Close")
+	}
+	vAssert(len(sinkA.b) == len(refA) && vBytesEq(sinkA.b, refA), "output is byte-identical whether or not another writer instance is active")
+	vAssert(len(sinkB.b) == len(refB) && vBytesEq(sinkB.b, refB), "the other instance's output is byte-identical too")
+	vReach("end")
+}
